@@ -27,7 +27,7 @@ def k_alias(case, o):
 class C04(Check):
     pid = "C04"
     props_file = "Props/C04.v"
-    corr_imports = ["Ebpf.Isa", "Corr.Exec", "Gen.Layout", "Corr.C04", "Corr.C09"]
+    corr_imports = ["Ebpf.Isa", "Corr.Exec", "Gen.Layout", "Gen.BitField", "Corr.C04", "Corr.C09"]
     technique = ("Coq theorems about the variable layout functions (locals, scratch, array-map variables pairwise disjoint for ANY declaration list) + the frame "
                  "property of stores + comparison of the REAL layout with the model + execution of real generated programs that write one variable and read all others")
     trusted = ["coq/Ebpf/Isa.v (kernel-validated)"]
@@ -63,7 +63,10 @@ class C04(Check):
 
     def gen_cases(self):
         n = 300 if self.tier == "quick" else 4000
-        return [self.make_case(self.rng) for _ in range(n)] + [dict_case(self.rng) for _ in range(n // 3)]
+        import random
+        rng = random.Random(self.seed + 4)       # its own stream: the cases above stay what they were
+        return ([self.make_case(self.rng) for _ in range(n)] + [dict_case(self.rng) for _ in range(n // 3)]
+                + [c for _ in range(n // 8) for c in bits_pair(rng)])
 
     def corpus(self):
         # the golden-pinned aliasing of two instances of one subprogram class
@@ -146,6 +149,19 @@ class C04(Check):
         terms, idx = [], []
         for i, c in enumerate(cases):
             c["_run"] = None
+            if c.get("kind") == "bits":
+                b = dsl.build(bits_decls(c), bits_stmts(c), xdp_min=c["G"])
+                b = dsl.build(bits_decls(c), bits_stmts(c), xdp_min=c["G"])      # the second program of the class is the one executed
+                c["_b"] = b if b.error is None else Err(6, b.error)
+                if b.error is None:
+                    stack = bytearray(256)
+                    for n, f, v in c["locals"]:
+                        st, _, addr = b.layout[n]
+                        stack[256 + addr:256 + addr + fsize(f)] = dsl.to_bytes(f, v)
+                    c["_stack0"] = bytes(stack)
+                    terms.append(f"(exec_vars {ebpf_exec.cprog(b.instrs)} {ebpf_exec.cbytes(bytes.fromhex(c['packet']))} [] [] {ebpf_exec.cbytes(stack)})")
+                    idx.append(i)
+                continue
             if c.get("kind") == "dict":
                 try:
                     c["_b"] = dict_build(c)
@@ -200,6 +216,8 @@ class C04(Check):
         return dsl.from_bytes("q" if f == "x" else f, data)
 
     def run_impl(self, case):
+        if case.get("kind") == "bits":
+            return bits_run(case)
         if case.get("kind") == "dict":
             return dict_run(case)
         b = case["_b"]
@@ -222,6 +240,8 @@ class C04(Check):
         b = case["_b"]
         if isinstance(b, Err) or case.get("_o") is None:
             return None
+        if case.get("kind") == "bits":
+            return bits_term(case)
         if case.get("kind") == "dict":
             its = [f"ILocal {cz(fsize(it[2]))}" if it[0] == "L" else f"IDict {cz(sum(fsize(f) for f in it[2]))} {cz(sum(fsize(f) for f in it[3]))}"
                    for it in case["items"] if it[0] != "H"]
@@ -234,6 +254,8 @@ class C04(Check):
         return f"(layout {sz(case['main']['locals'])} {subs} {sz(arr)} 4)"
 
     def model_value(self, case, o):
+        if case.get("kind") == "bits":
+            return list(bytes.fromhex(o["pkt"]))
         if case.get("kind") == "dict":
             return [o["addrs"], o["scratch"]]
         lay = o["layout"]
@@ -246,6 +268,8 @@ class C04(Check):
 
     # ---- oracle
     def holds(self, case, o):
+        if case.get("kind") == "bits":
+            return bits_holds(case, o)
         if case.get("kind") == "dict":
             return dict_holds(case, o)
         if isinstance(o, Err):
@@ -326,11 +350,18 @@ class C04(Check):
                 "instances (possibly of the same class); all variables preset with distinct values; 1-4 statements writing a constant or an expression of "
                 "another variable; afterwards every variable must hold its last written or its initial value; a further third of that number: programs declaring 1-2 Dict "
                 "structures (1-3 key and value members) between 0-4 locals and hash-map variables (of two hash maps) in random declaration order, every local, member and hash variable "
-                "written once in random order, optionally update(): every one must hold its value at the end and the map entry must be key -> value")
+                "written once in random order, optionally update(): every one must hold its value at the end and the map entry must be key -> value; a further quarter: XDP "
+                "programs with 2-5 bit-field packet variables of 1-8 bits sharing bytes (plus whole-byte neighbours), 1-5 stores of constants (half of them not "
+                "fitting the field: negative, 2**bits and above) or run-time values and loads, each run on a packet and on its complement")
 
     def distribution(self, cases, observed):
         d = {"with_subprograms": 0, "same_class_twice": 0, "array_vars": 0, "locals": 0, "build_errors": 0, "dict_programs": 0, "dict_updates": 0, "hash_vars": 0}
         for c, o in zip(cases, observed):
+            if c.get("kind") == "bits":
+                d["bit_field_programs"] = d.get("bit_field_programs", 0) + 1
+                d["bit_field_stores"] = d.get("bit_field_stores", 0) + sum(1 for s in c["stmts"] if s[0] != "read")
+                d["build_errors"] += isinstance(o, Err)
+                continue
             if c.get("kind") == "dict":
                 d["dict_programs"] += 1
                 d["dict_updates"] += bool(c["update"])
@@ -350,6 +381,146 @@ class C04(Check):
 
 # ---------------------------------------------------------------- locals + Dict structures + hash-map variables
 DFMTS = ["B", "H", "I", "Q", "b", "h", "i", "q"]
+
+
+# ---- bit-field variables: several declared variables share a byte of the packet
+def bits_case(rng):
+    G = rng.choice([8, 12, 16])
+    fields, used = [], {}
+    for k in range(rng.randint(2, 5)):
+        addr = rng.choice([0, 1, G - 1, rng.randrange(G)])
+        free = [p for p in range(8) if p not in used.setdefault(addr, set())]
+        if not free:
+            continue
+        pos = rng.choice(free)
+        maxbits = 1
+        while pos + maxbits < 8 and pos + maxbits not in used[addr]:
+            maxbits += 1
+        bits = rng.choice([1, maxbits, rng.randint(1, maxbits), min(maxbits, rng.randint(2, 4)), min(maxbits, rng.randint(2, 4))])
+        used[addr].update(range(pos, pos + bits))
+        fields.append([f"f{k}", addr, pos, bits])
+    whole = [[f"b{k}", a, "B"] for k, a in enumerate(sorted(set(range(G)) - set(used))[:rng.randint(0, 2)])]
+    locs = [[f"l{k}", f, exprs.rand_value(rng, f)] for k, f in enumerate(rng.choice(["B", "H", "I", "b", "Q"]) for _ in range(rng.randint(1, 3)))]
+    stmts = []
+    for _ in range(rng.randint(1, 5)):
+        name, addr, pos, bits = rng.choice(fields)
+        r = rng.random()
+        if r < 0.55:
+            # constants that fit, and constants that do not: negative, 2**bits and above, all ones
+            stmts.append(["setc", name, rng.choice([0, 1, (1 << bits) - 1, rng.randrange(1 << bits), rng.randrange(1 << bits), -1, -2, -(1 << bits), 1 << bits,
+                                                    (1 << bits) + 1, (1 << bits) + rng.randrange(1 << bits), 0xff, 0x155, 13, 8])])
+        elif r < 0.75:
+            stmts.append(["setv", name, rng.choice(locs)[0]])
+        elif r < 0.9:
+            stmts.append(["read", rng.choice(locs)[0], name])
+        elif whole:
+            stmts.append(["setc", rng.choice(whole)[0], rng.randrange(256)])
+    L = rng.choice([G + 1, G + 1, G + 4, 64])
+    r = rng.random()
+    packet = bytes(rng.choice([0, 0xff, 0xaa, 0x55]) if r < 0.4 else rng.randrange(256) for _ in range(L))
+    return {"kind": "bits", "G": G, "fields": fields, "whole": whole, "locals": locs, "stmts": stmts, "packet": packet.hex()}
+
+
+def bits_pair(rng):
+    """the same program on a packet and on its complement: a store that sets or clears a bit outside its field shows in one of them"""
+    c = bits_case(rng)
+    c2 = dict(c, packet=bytes(x ^ 0xff for x in bytes.fromhex(c["packet"])).hex())
+    return [c, c2]
+
+
+def bits_decls(case):
+    return ([(n, "local", f) for n, f, v in case["locals"]] + [(n, "packet", (a, (p, b))) for n, a, p, b in case["fields"]]
+            + [(n, "packet", (a, f)) for n, a, f in case["whole"]])
+
+
+def bits_stmts(case):
+    out = []
+    for s in case["stmts"]:
+        if s[0] == "setc":
+            out.append(["set", ["v", s[1]], ["c", s[2]]])
+        elif s[0] == "setv":
+            out.append(["set", ["v", s[1]], ["v", s[2]]])
+        else:
+            out.append(["set", ["v", s[1]], ["v", s[2]]])
+    return out
+
+
+def bits_run(case):
+    b = case["_b"]
+    if isinstance(b, Err):
+        return b
+    r = case["_run"]
+    if r is None:
+        return Err(9, "model evaluation failed")
+    status, pkt, maps, stack, regs = r
+    if status != [1]:
+        return Err(7, f"program did not exit normally: status {status}")
+    pkt = bytes(x for x, n in pkt for _ in range(n))
+    o = {"pkt": pkt.hex(), "locals": {n: dsl.from_bytes(f, bytes(stack[256 + b.layout[n][2]:256 + b.layout[n][2] + fsize(f)])) for n, f, v in case["locals"]}}
+    case["_o"] = o
+    return o
+
+
+def bits_walk(case):
+    """the meaning: a store changes the bits of its field and nothing else (value modulo 2**bits; a one-bit field takes the truth
+    value), a load reads the field.  Returns (packet, locals, the field stores as (addr, pos, bits, value-or-truth))"""
+    pkt = bytearray(bytes.fromhex(case["packet"]))
+    fld = {n: (a, p, b) for n, a, p, b in case["fields"]}
+    whole = {n: a for n, a, f in case["whole"]}
+    loc = {n: v for n, f, v in case["locals"]}
+    lf = {n: f for n, f, v in case["locals"]}
+    ops = []
+    for s in case["stmts"]:
+        if s[0] == "read":
+            a, p, b = fld[s[2]]
+            v = (pkt[a] >> p) & ((1 << b) - 1)
+            loc[s[1]] = dsl.from_bytes(lf[s[1]], dsl.to_bytes(lf[s[1]], v))
+            continue
+        v = s[2] if s[0] == "setc" else loc[s[2]]
+        if s[1] in whole:
+            pkt[whole[s[1]]] = v % 256
+            ops.append(("whole", whole[s[1]], v % 256))
+            continue
+        a, p, b = fld[s[1]]
+        if b == 1:
+            pkt[a] = (pkt[a] | (1 << p)) if v else (pkt[a] & ~(1 << p) & 0xff)
+            ops.append(("flag", a, p, bool(v)))
+        else:
+            mask = ((1 << b) - 1) << p
+            pkt[a] = (pkt[a] & ~mask & 0xff) | ((v << p) & mask)
+            ops.append(("set", a, p, b, v))
+    return bytes(pkt), loc, ops
+
+
+def bits_term(case):
+    _, _, ops = bits_walk(case)
+    cops = []
+    for o in ops:
+        if o[0] == "flag":
+            cops.append(f"BFlag {cz(o[1])} {cz(o[2])} {'true' if o[3] else 'false'}")
+        elif o[0] == "set":
+            cops.append(f"BSet {cz(o[1])} {cz(o[2])} {cz(o[3])} {cz(o[4])}")
+        else:
+            cops.append(f"BSet {cz(o[1])} 0 8 {cz(o[2])}")
+    return f"(run_bits {ebpf_exec.czlist(bytes.fromhex(case['packet']))} {clist(cops)})"
+
+
+def bits_holds(case, o):
+    if isinstance(o, Err):
+        if o.code == 6:
+            return True if ("no value" in o.what or "not enough registers" in o.what) else f"generator refused a program with bit-field variables: {o.what}"
+        return o.what
+    pkt, loc, _ = bits_walk(case)
+    got = bytes.fromhex(o["pkt"])
+    if got != pkt:
+        k = next(i for i in range(len(pkt)) if got[i] != pkt[i])
+        others = [n for n, a, p, b in case["fields"] if a == k]
+        return (f"packet byte {k} is {got[k]:#04x}, expected {pkt[k]:#04x} (was {bytes.fromhex(case['packet'])[k]:#04x}): a store into one of the variables "
+                f"{others} sharing this byte changed bits outside its field; statements {case['stmts']}, fields {case['fields']}")
+    for n, v in loc.items():
+        if o["locals"][n] != v:
+            return f"local {n} is {o['locals'][n]}, expected {v}; statements {case['stmts']}, fields {case['fields']}"
+    return True
 
 
 def dict_case(rng):
